@@ -14,8 +14,11 @@ RULE = ('random documents (3..40 objects of every value kind; streams whose payl
         'non-trivial = a loaded document with >= 3 objects or a rejected identity mismatch')
 TRUSTED = ['model of the loader logic of pdf_traverse_xref.rs in coq/Model/Loader.v (hand transcription over the abstraction '
            '"offset -> what the parsers find there", validated by this correspondence run on rendered files)',
-           'props/loaderlib.py: the python renderer that turns an abstract document + layout into PDF bytes and into the '
-           'abstract description given to the model (trusted glue, not verified)',
+           'the abstract description of each case (offset -> what the parsers find there) is NOT trusted: harness/src/loader_common.rs validates every item, every mentioned offset and the header fields of every case against the real '
+           'byte-level parsers applied to the file bytes (XrefSectP + TrailerP, IndirectP, XrefStreamP, ObjStreamP, StartXrefP; '
+           'a PDFObjContext of its own per item) and reports items=bad, which the oracle and the model comparison flag',
+           'props/loaderlib.py remains trusted only for "these bytes are a rendering of this document"; the independent python '
+           'resolve + the real loader\'s answer cover that on every case',
            'the byte-level parsers the loader calls (tokens, objects, xref tables/streams, object streams, filters) are the '
            'subject of C02 C05 C13 C14 C06 C07, not of this property']
 ASSUMPTIONS = ['a stream read with a /Length different from its payload length does not parse',
@@ -192,7 +195,7 @@ def oracle(case, obs, prof):
 def nontrivial(case, obs):
     S = L.parse_spec(case)
     if S['kind'] == 'idmis':
-        return obs == 'rejected'
+        return obs.startswith('rejected')
     return S['kind'] == 'wf' and obs.startswith('loaded') and len(S['exp']) >= 3
 
 
